@@ -64,6 +64,39 @@ fn run_parse(args: &[u64]) -> Vec<u64> {
     }
 }
 
+fn run_incparse(args: &[u64]) -> Vec<u64> {
+    let n = args[0] as usize;
+    let old = text_of(&args[1..1 + n]).expect("bad text");
+    let cs = args[1 + n] as usize;
+    let ce = args[2 + n] as usize;
+    let ins = text_of(&args[3 + n..]).expect("bad text");
+    if ce < cs || ce > old.len() || !old.is_char_boundary(cs) || !old.is_char_boundary(ce) {
+        return vec![3];
+    }
+    let tokens = lexer::lex(&old);
+    let tree = spl_frontend::parser::parse(&tokens);
+    let mut new = old.clone();
+    new.replace_range(cs..ce, &ins);
+    let change = TextChange {
+        range: cs..ce,
+        text: ins,
+    };
+    match catch_unwind(AssertUnwindSafe(|| {
+        let (tokens, tc) = lexer::update(&new, tokens, &change);
+        spl_frontend::parser::update(
+            tree,
+            spl_frontend::tokens::TokenStream::new_with_change(&tokens, tc),
+        )
+    })) {
+        Ok(program) => {
+            let mut out = vec![0];
+            enc_program(&program, &mut out);
+            out
+        }
+        Err(_) => vec![1],
+    }
+}
+
 fn main() {
     std::panic::set_hook(Box::new(|_| {}));
     let stdin = std::io::stdin();
@@ -79,6 +112,8 @@ fn main() {
             Some(1) => run_lex(&nums[1..]),
             Some(2) => run_update(&nums[1..]),
             Some(7) => run_parse(&nums[1..]),
+            Some(14) => run_incparse(&nums[1..]),
+            Some(15) => run_parse(&nums[1..]),
             _ => vec![4],
         };
         let strs: Vec<String> = out.iter().map(|n| n.to_string()).collect();
